@@ -132,6 +132,11 @@ def accepts_tree(clssrc, spec_src):
             return 'ERROR %s' % ex
         if got == exp:
             return 'equal terms'
+        try:
+            if equiv_mod_ite(got, exp):
+                return 'decision trees'
+        except Exception:
+            pass
         for n in (8, 32):
             try:
                 g2 = ctx.fn_term('crysp/toy.py', 'Toy.f', unroll=n)
